@@ -454,13 +454,50 @@ class Gen:
         return self.ops
 
 
-def generate(seed, n, **params):
+RACE_OPS = ('create_batch', 'create_update', 'create_groups', 'create_jobs', 'commit')
+P_RACE = 0.02          # per client request of a generated history
+MAX_RACES = 2          # per history (the tie evaluates 2 serial readings per race between different requests)
+
+
+def add_races(ops, rng, p_race=P_RACE, max_races=MAX_RACES):
+    """Race mode (op "race", INTERFACE.md): with a small probability a client request X of a generated history is delivered twice,
+    OVERLAPPING -- {"op":"race","first":X,"second":X,"pause":k} with k anywhere in (and a little beyond) the read-only prefix of the
+    handlers -- and a commit overlaps a re-delivery of the last job bunch of its update.  A verbatim retry leaves the state of a
+    single delivery (C09), so the rest of the history stays what the generator believed.  Uses its OWN random stream: the histories
+    are exactly those generated without race mode, except for the replaced requests."""
+    out = []
+    n = 0
+    last_bunch = {}
+    for op in ops:
+        name = op.get('op')
+        if name == 'create_jobs':
+            last_bunch[(op.get('batch'), op.get('update'))] = op
+        if name in RACE_OPS and 'time' not in op and n < max_races and rng.random() < p_race:
+            k = rng.choice([0, 1, 1, 2, 2, 3, 4])
+            other = copy.deepcopy(op)
+            first = copy.deepcopy(op)
+            if name == 'commit' and (op.get('batch'), op.get('update')) in last_bunch and rng.random() < 0.6:
+                other = copy.deepcopy(last_bunch[(op.get('batch'), op.get('update'))])
+                if rng.random() < 0.5:
+                    first, other = other, first
+            out.append({'op': 'race', 'first': first, 'second': other, 'pause': k})
+            n += 1
+        else:
+            out.append(op)
+    return out
+
+
+def generate(seed, n, p_race=0.0, **params):
+    """p_race > 0 (the family tie passes P_RACE): race mode, see add_races; 0 = the generator as it always was."""
     p = dict(DEFAULTS)
     p.update(params)
     out = []
     for i in range(n):
         rng = random.Random(f'{seed}/{i}')
-        out.append(Gen(rng, p).run())
+        ops = Gen(rng, p).run()
+        if p_race:
+            ops = add_races(ops, random.Random(f'race/{seed}/{i}'), p_race)
+        out.append(ops)
     return out
 
 
